@@ -4,6 +4,7 @@ package main
 // structural hash with global declarations, so assertions of different paths share definitions.
 
 import (
+	"os"
 	"bufio"
 	"fmt"
 	"io"
@@ -25,6 +26,7 @@ type Solver struct {
 	kind     string
 	timeout  int
 	unknowns int
+	dumpN    int
 	errors   int
 	buf      strings.Builder
 }
@@ -203,9 +205,16 @@ func (s *Solver) Check(pc []*Term, extra *Term) SatResult {
 			continue
 		}
 	}
-	s.timeS += time.Since(t0).Seconds()
+	dt := time.Since(t0).Seconds()
+	s.timeS += dt
+	if dumpDir != "" && dt > 2 {
+		s.dumpN++
+		os.WriteFile(fmt.Sprintf("%s/q%d_%d_%s.smt2", dumpDir, os.Getpid(), s.dumpN, res), []byte(Standalone(pc, extra)+"(check-sat)\n"), 0o644)
+	}
 	return res
 }
+
+var dumpDir = os.Getenv("VERIF_DUMPQ")
 
 // Model fetches values for the given symbols after a Sat answer. The query must be repeated
 // with the extra literal asserted because check-sat-assuming models are available directly.
